@@ -46,7 +46,7 @@ fn depth_cases(tier: Tier) -> u64 {
 fn plan(tier: Tier) -> Plan {
     match tier {
         Tier::Quick => Plan {
-            cases: 6_000,
+            cases: 20_000,
             time_cap_s: 50,
             case_timeout_s: 10,
             exhaustive: false,
